@@ -23,7 +23,7 @@ import (
 var loopProgConsumesInput func(c *Ctx, fi *FuncInfo, n ast.Node) bool
 
 type loopProgResult struct {
-	loops, skipped int
+	loops, skipped, trivial int
 }
 
 func loopProgress(c *Ctx, rule string, funcs []*FuncInfo) loopProgResult {
@@ -47,7 +47,11 @@ func loopProgress(c *Ctx, rule string, funcs []*FuncInfo) loopProgResult {
 	return res
 }
 
-func (r *loopProgResult) add(o loopProgResult) { r.loops += o.loops; r.skipped += o.skipped }
+func (r *loopProgResult) add(o loopProgResult) {
+	r.loops += o.loops
+	r.skipped += o.skipped
+	r.trivial += o.trivial
+}
 
 func itoa(n int) string {
 	if n == 0 {
@@ -141,7 +145,6 @@ func loopProgressBody(c *Ctx, rule string, fi *FuncInfo, name string, body *ast.
 			res.skipped++
 			return true
 		}
-		res.loops++
 		writes := func(n ast.Node) bool {
 			if loopProgConsumesInput != nil && loopProgConsumesInput(c, fi, n) {
 				return true
@@ -248,8 +251,10 @@ func loopProgressBody(c *Ctx, rule string, fi *FuncInfo, name string, body *ast.
 		if bodyB == nil || loopB == nil {
 			// `for cond {}` whose body never completes normally, or an unreachable loop
 			c.okTrivial(rule, key, fs.Pos(), "the loop body never returns to the condition")
+			res.trivial++
 			return true
 		}
+		res.loops++
 		// search: from the body entry to the condition block avoiding writes
 		seen := map[*cfg.Block]bool{}
 		var offending token.Pos
@@ -303,11 +308,31 @@ func init() {
 			}
 			r := loopProgress(c, rule, fns)
 			c.expect(rule, min)
+			// Non-vacuity of a rule that quantifies over EVERY conditional loop is "no loop was lost", not "as many
+			// loops as the day the rule was written": merging duplicated loop nests into one parametrised loop
+			// lowers the count without changing behaviour. The conditional `for` statements of the examined
+			// functions are counted again, independently (over the declarations' syntax, function literals
+			// included), and must all have been examined or explicitly left alone.
+			total := 0
+			for _, fi := range fns {
+				if fi == nil || fi.Decl == nil || fi.Decl.Body == nil {
+					continue
+				}
+				ast.Inspect(fi.Decl.Body, func(m ast.Node) bool {
+					if fs, ok := m.(*ast.ForStmt); ok && fs.Cond != nil {
+						total++
+					}
+					return true
+				})
+			}
+			if got := r.loops + r.skipped + r.trivial; got != total {
+				c.undecided(rule, "all conditional loops examined", 0, "%d conditional loops in the syntax, %d examined or left alone: the recogniser lost some", total, got)
+			}
 			c.info("%s: %d conditional loops examined, %d left alone (condition reads a channel, an opaque call or package-level state)", rule, r.loops, r.skipped)
 		})
 	}
 	const what = "every conditional loop writes, on every path back to its condition, something the condition reads (no iteration can repeat forever)"
-	reg("C05", "C05.j", "widgets/term: "+what, 30, []string{"widgets/term"}, nil)
+	reg("C05", "C05.j", "widgets/term: "+what, 1, []string{"widgets/term"}, nil)
 	reg("C08", "C08.h", "ansi: "+what, 1, []string{"ansi"}, nil)
 	reg("C16", "C16.j", "vxfw/text, vxfw/richtext: "+what, 1, []string{"vxfw/text", "vxfw/richtext"}, nil)
 	reg("C17", "C17.i", "vxfw/textfield, widgets/textinput: "+what, 1, []string{"vxfw/textfield", "widgets/textinput"}, nil)
